@@ -61,8 +61,8 @@ def compatible(item, strict=True):
             return False
     if item.kind == 'union':
         return False
-    if item.ident.rust() in ('isize', 'usize', 'u8', 'u16', 'u32', 'u64', 'u128', 'i8', 'i16', 'i32', 'i64', 'i128'):
-        return False          # known finding KF-isize: the expansion names integer types by bare tokens
+    if item.ident.rust() in ('bool', 'isize', 'usize', 'u8', 'u16', 'u32', 'u64', 'u128', 'i8', 'i16', 'i32', 'i64', 'i128'):
+        return False          # known findings KF-isize, KF-bool: the expansion names integer types and `bool` by bare tokens
     for pr in item.preds:
         if not re.fullmatch(r"[A-Z]: (Super|'static)", pr.strip()):
             return False
